@@ -153,6 +153,9 @@ def run(run, model, proof):
         if not ok:
             run.violation("pretty:pel-output", "the printed PEL does not parse back to the decoded document",
                           dict(kind="S", fn="parsePEL", input_hex=data.hex(), printed=js[:1500]))
+    # a document near the interpreter's nesting limits: whatever the decoder keeps of a deeply nested JSON value (the value itself
+    # or, beyond what it can handle, the hex dump of its text) the PEL is printed, and the print parses back
+    deep_docs(run, rng, thorough)
     # json.loads and json.dumps(indent=4) themselves against their Gallina models
     for t in JSON_EDGE:
         check_loads(run, model, t, "edge")
@@ -278,6 +281,59 @@ def int_doc(rng, depth=0):
     if k in (4, 5):
         return [int_doc(rng, depth + 1) for _ in range(rng.randrange(0, 4))]
     return OrderedDict((rtext(rng, rng.randrange(0, 7)), int_doc(rng, depth + 1)) for _ in range(rng.randrange(0, 5)))
+
+
+def deep_docs(run, rng, thorough):
+    import os
+    import cli_runner
+    import dirgen
+    depths = [150, 300, 480, 490, 500, 640, 800, 900, 960, 990, 1000, 1040, 1100, 1200, 1300, 1400, 1480, 1500, 1700, 2100, 3000]
+    if thorough:
+        depths += [rng.randrange(100, 3200) for _ in range(60)]
+    for i, depth in enumerate(depths):
+        shape = rng.choice(["list", "dict", "mixed"])
+        if shape == "list":
+            text = "[" * depth + "1" + "]" * depth
+        elif shape == "dict":
+            text = '{"a":' * depth + "1" + "}" * depth
+        else:
+            text = '[{"k":' * (depth // 2) + '"v"' + "}]" * (depth // 2)
+        ed = rng.random() < 0.3
+        sec = (b"ED", 1, 1, 0x2000, b"O\0\0\0" + text.encode()) if ed else (b"UD", 1, 1, 0x2000, text.encode())
+        data = c04.mini_pel(b"O", [sec])
+        run.evaluations += 1
+        run.count("deep-json:" + shape)
+        rp = dict(kind="S", fn="parsePEL", input_hex=data.hex(), depth=depth, shape=shape)
+        r = pelgen.impl_decode(data, rng.random() < 0.5)
+        if r["kind"] != "ok":
+            run.violation("deep:not-printed", "a PEL whose JSON user data is nested %d deep is not printed at all (%s)" % (depth, r.get("exc")),
+                          dict(rp, actual=r.get("exc")))
+            continue
+        try:
+            back = json.loads(r["text"], object_pairs_hook=OrderedDict)
+        except RecursionError:
+            back = None
+        except ValueError as e:
+            run.violation("deep:not-json", "the print of a PEL with deeply nested user data is not valid JSON (%s)" % e, dict(rp, printed=r["text"][:400]))
+            continue
+        if back is not None and pelgen.first_diff(r["doc"], back):
+            run.violation("deep:not-equal", "the print of a PEL with deeply nested user data does not parse back to the document", rp)
+        if i % 3 == 0 or thorough:
+            # the same through a real interpreter (its stack is not this process's): -f prints the PEL
+            with dirgen.TempDir([("deep.pel", data, dict(kind="pel"))]) as d:
+                rc, out, err = cli_runner.run_subproc(["-f", os.path.join(d, "deep.pel")])
+            run.count("deep-json:cli")
+            ok = bool(out.strip())
+            if ok:
+                try:
+                    json.loads(out)
+                except RecursionError:
+                    pass
+                except ValueError:
+                    ok = False
+            if not ok:
+                run.violation("deep:cli", "peltool -f prints no valid JSON for a PEL whose JSON user data is nested %d deep" % depth,
+                              dict(rp, fn="cli06deep", stdout=out[:300], stderr=err[-300:]))
 
 
 def cli_dir(run, model, rng, nfiles, sub=False):
